@@ -802,6 +802,9 @@ def declare(decls, name, ty):
 def writeset_check(out, pv):
     if not OPTS['writeset']: return
     g = base_global(pv)
+    if g is None:
+        m = re.search(r'&(g_\w+)', pv)          # constant-expression operands: bitcast / gep of a global
+        if m and not re.fullmatch(r'v_\w+', pv) and pv not in LV: g = m.group(1)
     if g is not None:
         if OPTS['ws_allow'] is not None and OPTS['ws_allow'].search(g): return
         out.append('__CPROVER_assert(0, "WRITESET: store to module global %s");' % g)
@@ -811,6 +814,12 @@ def writeset_check(out, pv):
         b = LV[pv][0]
         if re.fullmatch(r'v_\w+', b) and not CUR.get('allocas', set()) & {b}:
             out.append('ws_check((void*)%s);' % b)
+        elif not re.fullmatch(r'v_\w+', b):
+            m = re.search(r'&(g_\w+)', b)
+            if m and not (OPTS['ws_allow'] is not None and OPTS['ws_allow'].search(m.group(1))):
+                out.append('__CPROVER_assert(0, "WRITESET: store to module global %s");' % m.group(1))
+    else:
+        out.append('ws_check((void*)(%s));' % pv)
 
 def emit_inst(p, out, decls, phis, curlab):
     dst = None
